@@ -315,6 +315,9 @@ pub const FIXED_POSIX: &[&str] = &[
     // empty DST period: DST ends at the very instant it starts (what zic writes for such a rule pair)
     "XST3XDT,J100,J100/3",
     "XST3XDT2,J100/2:00,J100/3:00",
+    // DST with the same offset as standard time (what zic writes for a SAVE 0 rule): only flag and abbreviation change
+    "XST3XDT3,M3.2.0,M11.1.0",
+    "<+02>-2<+02s>-2,M10.1.0,M3.3.0/3",
 ];
 
 /// Instants of interest for a zone: around every explicit transition and the
